@@ -171,6 +171,33 @@ static void stage_shapes(Run &R) {
     R.space("C06 17 adversarial shapes x 24 lengths (0, 1, 2, 12-30, 63-66, 253-257, 1023-1025, 4096, 65535, 65536) + all 1-byte inputs, each also in a read-only page against a guard page", total);
 }
 
+// Stack use must not grow with the input: every entry point on inputs of 64 KiB - 2 MiB inside a thread whose stack is
+// 512 KiB (server worker threads commonly have 64-512 KiB).  A copy of the input on the stack (alloca, variable-length
+// array, recursion per byte) overflows there; the overflow is a SIGSEGV that ASan reports as stack-overflow.
+struct StackJob { const Bytes *a; uint64_t digest; };
+static void *stack_thread(void *p) { StackJob *j = (StackJob *) p; ExactBuf b(*j->a); j->digest = exercise_all(VAR[0], &OB[0][0], b.p, j->a->size()) ^ exercise_all(VAR[1], &OB[1][0], b.p, j->a->size()); return nullptr; }
+static std::optional<Failure> check_stack(Run &R, int k, size_t n) {
+    Case cs; cs.i("stackshape", k).i("len", (long long) n); g_case = cs.str();
+    Bytes a = shape(k, n); StackJob j{&a, 0};
+    pthread_attr_t at; pthread_attr_init(&at); pthread_attr_setstacksize(&at, 512 * 1024);
+    pthread_t t; if (pthread_create(&t, &at, stack_thread, &j) != 0) return Failure{"harness-error", g_case, "pthread_create failed"};
+    pthread_join(t, nullptr); pthread_attr_destroy(&at);
+    R.eval(96); R.nontrivial(hashs(g_case)); R.count("small-stack-thread");
+    ExactBuf b(a); uint64_t ref = exercise_all(VAR[0], &OB[0][0], b.p, a.size()) ^ exercise_all(VAR[1], &OB[1][0], b.p, a.size());
+    if (ref != j.digest) return Failure{"thread-differs", g_case, "outcomes in a small-stack thread differ from the main thread for shape " + std::to_string(k) + " length " + std::to_string(n)};
+    return std::nullopt;
+}
+static void stage_stack(Run &R) {
+    uint64_t idx = 0, total = 0;
+    std::vector<size_t> lens = {65536, 300000, 1 << 20}; if (R.a.thorough) { lens.push_back(2 << 20); lens.push_back(9 << 20); }
+    for (int k = 0; k < 17; k++) for (size_t n : lens) {
+        total++; if ((int) (idx++ % R.a.nworkers) != R.a.worker) continue;
+        auto f = check_stack(R, k, n); if (f && !R.fail(*f)) return;
+        R.sample("stack", "shape " + std::to_string(k) + " length " + std::to_string(n) + " in a thread with a 512 KiB stack", 3);
+    }
+    R.space("C06 17 adversarial shapes x lengths {64 KiB, 300 000, 1 MiB" + std::string(R.a.thorough ? ", 2 MiB, 9 MiB" : "") + "} through every entry point inside a thread with a 512 KiB stack", total);
+}
+
 static void stage_guard(Run &R) {
     uint64_t i = 0;
     for (const Bytes &l : corpus_lines(R.a.datadir)) { if ((int) (i++ % R.a.nworkers) != R.a.worker) continue; if (!run_one(R, l, true)) return; R.count("corpus-lines-guarded"); }
@@ -202,8 +229,9 @@ static void stage_emit(Run &R) {
 }
 
 int main(int argc, char **argv) {
-    return std_main(argc, argv, "C06", {{"emit", stage_emit}, {"sweep", stage_sweep}, {"shapes", stage_shapes}, {"guard", stage_guard}, {"random", stage_random}},
+    return std_main(argc, argv, "C06", {{"emit", stage_emit}, {"sweep", stage_sweep}, {"shapes", stage_shapes}, {"guard", stage_guard}, {"random", stage_random}, {"stack", stage_stack}},
         [](Run &R, const Case &c) -> std::optional<Failure> {
+            if (c.has("stackshape")) return check_stack(R, (int) c.geti("stackshape"), (size_t) c.geti("len"));
             Bytes a = c.getb("input"); __lsan_do_recoverable_leak_check();
             auto f = check_one(R, a, false); if (f) return f;
             f = check_one(R, a, true); if (f) return f;
